@@ -2,6 +2,7 @@ import Zc.Model.Listener
 import Zc.GenFacts.Listener
 import Zc.Proofs.Listener
 import Zc.Proofs.ListenerInv
+import Zc.GenFacts.FnListener
 /-! # C16 — back-to-back duplicate datagrams change nothing
 
 Delivering a datagram twice in immediate succession on one socket is observationally the same as
@@ -641,5 +642,44 @@ example : (⟨false, 5353, 1000, 1, 12, [⟨true, [⟨0, some (900, 4500)⟩]⟩
 example : (⟨false, 5353, 1000, 1, 12, [⟨true, [⟨0, some (900, 4500)⟩]⟩]⟩ : QueryIn).allRecent = true := by decide
 example : respondEmits ⟨false, 5353, 1000, 1, 12, [⟨true, [⟨0, some (900, 4500)⟩]⟩]⟩ = [.unicast [0]] := by decide
 example : respondEmits d11Witness = [.multicast [0]] := by decide
+
+/-! ## Tie: the source of `AsyncListener`'s deferral of truncated queries (`_listener.py`), translated statement by statement on every run
+
+`Zc.GenFn.Listener` is regenerated from the *bodies* of `handle_query_or_defer`, `_cancel_any_timers_for_addr` and `_respond_query`
+(`tools/gen_fn.py`, spec `tools/fnspecs/listener.py`): `random.randint` and `loop.time()` are parameters; `loop.call_at(…)`,
+`handle.cancel()` and `query_handler.handle_assembled_query(…)` are returned effects.  `GenFacts/FnListener.lean` proves the model's
+`queryOrDefer` / `respond` (this file's state machine behind the guard) equal to those bodies under `Rel` (the two dicts are the model's
+association lists).  **What this transports**: the blocks `queryOrDefer`, `respondMsg` and `respond` of the model are the translated
+code.  **What it does not**: `datagram_received` / `_process_datagram_at_time` (size test, duplicate guard, parsing, the registry
+test) are tied by the generated leaves only (`GenFacts.Listener`), and the theorems of this file are about `recv` / `run`, which
+compose those hand-written steps with the blocks tied here. -/
+section Tie
+open Zc.Py Zc.GenFn.Listener _root_.Zc.GenFacts.FnListener
+
+/-- **Deferral of a truncated query, in the translated code**: the model's `queryOrDefer` — same `_deferred`, same `_timers`, nothing
+handed to the query handler; a packet already deferred for the address changes nothing; otherwise the address's armed timer is
+cancelled and a new one armed `randint(400, 500)` ms after the loop time -/
+theorem C16_defer_source {s : AsyncListener} {st : State σ} (h : Rel s st)
+    (m : MsgInfo) (pkt : Packet) (addr : String) (port : Nat) (rr : Int → Int → Int) (lt : Int) (draw : Nat)
+    (ht : m.truncated = true) (hdraw : rr 400 500 = (draw : Int)) (hlt : lt = pkt.now) :
+    ∃ s' effs, s.handle_query_or_defer (m, pkt) addr port () () rr lt = .ok (s', effs)
+      ∧ Rel s' (queryOrDefer H st m pkt addr port draw).1
+      ∧ (queryOrDefer H st m pkt addr port draw).2.1 = []
+      ∧ (((queryOrDefer H st m pkt addr port draw).2.2 = .deferredSame ∧ effs = [])
+         ∨ ((queryOrDefer H st m pkt addr port draw).2.2 = .deferred (pkt.now + draw)
+            ∧ effs = (PyDict.get? strEq s.timers addr).toList.map LEffect.cancel ++ [LEffect.callAt (pkt.now + draw) addr port])) :=
+  defer_eq H h m pkt addr port rr lt draw ht hdraw hlt
+
+/-- **Answering (a complete query, or the timer of a deferred one), in the translated code**: the model's `respond` — the address's
+timer cancelled, its deferred packets popped and handed, with the message if any, to the query handler -/
+theorem C16_respond_source {s : AsyncListener} {st : State σ} (h : Rel s st) (msg : Option (MsgInfo × Packet)) (addr : String) (port : Nat) :
+    ∃ s' pk, s.respond_query msg addr port () ()
+        = .ok (s', (PyDict.get? strEq s.timers addr).toList.map LEffect.cancel ++ [LEffect.assembled pk addr port])
+      ∧ Rel s' { st with timers := alErase addr st.timers, deferred := alErase addr st.deferred }
+      ∧ respond H st (msg.map Prod.snd) addr port
+          = runAssembled H { st with timers := alErase addr st.timers, deferred := alErase addr st.deferred } (pk.map Prod.snd) addr port :=
+  respond_query_eq H h msg addr port
+
+end Tie
 
 end Zc.Listener
